@@ -44,8 +44,9 @@ def raw_reads(fn):
     """[(node, description)] raw character reads of self._seq (or a local alias) in fn"""
     al = aliases_of(fn, "self._seq")
 
+    # a local bound to a sequence (`seq = self`, `seq = self.trim_stop_codon(...)`, another sequence) has a view too
     def is_view(e):
-        return norm(e) == "self._seq" or (isinstance(e, ast.Name) and e.id in al)
+        return norm(e) == "self._seq" or (isinstance(e, ast.Name) and e.id in al) or (isinstance(e, ast.Attribute) and e.attr == "_seq" and isinstance(e.value, ast.Name))
 
     out = []
     for n in walk_no_nested(fn):
